@@ -41,7 +41,10 @@ def corpus(seed, n, circles):
             docs.append(s)
     while len(docs) < n:
         q = rng.random()
-        if q < 0.6:
+        if q < 0.15:
+            # several class tags on one shape: the order of the classes must not depend on a hash seed
+            rows = gen.tagged_shape(rng)
+        elif q < 0.6:
             rows = gen.random_grid(rng, gen.FULL + '日"{}', wmax=16, hmax=8)
         else:
             kind, rows = gen.diagram(rng, circles, allow_quotes=True, allow_braces=True)
